@@ -677,3 +677,154 @@ Proof.
     destruct (Nat.leb_spec limit (length (skipn used data'))) as [L'|L']; [|rewrite skipn_length in L'; lia].
     rewrite F3. rewrite (crc_a_ext _ t _ _ He (skipn limit (skipn used data')) t'); [rewrite C1; reflexivity|exact F4|rewrite !skipn_length; lia].
 Qed.
+
+(* ------------------------------------------------------------ DecodeChained over a byte list *)
+Record cares := mk_cares {
+  ca_err : option err; ca_files : list file; ca_used : nat; ca_g : gstate; ca_quirks : list N;
+  ca_exact : bool      (* the position after the last decode is determined *)
+}.
+
+Fixpoint chained_a (o : dopts) (g : gstate) (data : list N) (t : term) (i files : nat) (acc : list file) (q : list N) (used0 : nat)
+  : tout cares :=
+  match files with
+  | O => TOutOfFuel
+  | S k =>
+      match decode_a o MFull g data t with
+      | TOutOfFuel => TOutOfFuel
+      | TPanic w => TPanic w
+      | TDone r =>
+          match ar_err r with
+          | Some e =>
+              match e, i with
+              | EReadSizeEOF, S _ => TDone (mk_cares None acc (used0 + ar_used r) (ar_g r) (q ++ ar_quirks r) (ar_exact r))
+              | _, _ =>
+                  let acc' := match ar_file r with Some f => acc ++ [f] | None => acc end in
+                  TDone (mk_cares (Some e) acc' (used0 + ar_used r) (ar_g r) (q ++ ar_quirks r) (ar_exact r))
+              end
+          | None =>
+              let acc' := match ar_file r with Some f => acc ++ [f] | None => acc end in
+              chained_a o (ar_g r) (skipn (ar_used r) data) t (S i) k acc' (q ++ ar_quirks r) (used0 + ar_used r)
+          end
+      end
+  end.
+
+Definition cmatch (rd : reader) (used0 : nat) (x : tout cres) (y : tout cares) : Prop :=
+  match x, y with
+  | TDone cr, TDone ca =>
+      cr_err cr = ca_err ca /\ cr_files cr = ca_files ca /\ cr_g cr = ca_g ca /\ cr_quirks cr = ca_quirks ca /\
+      rd_pos rd <= rd_pos (cr_rd cr) /\
+      rd_pos (cr_rd cr) + used0 <= rd_pos rd + ca_used ca /\
+      (ca_exact ca = true -> rd_pos (cr_rd cr) + used0 = rd_pos rd + ca_used ca)
+  | TPanic w, TPanic w' => w = w'
+  | TOutOfFuel, TOutOfFuel => True
+  | _, _ => False
+  end.
+
+Theorem decode_chained_abs o fuel : forall k g rd i acc q used0, wf rd fuel ->
+  cmatch rd used0 (decode_chained o g rd fuel i k acc q) (chained_a o g (rd_data rd) (rd_term rd) i k acc q used0).
+Proof.
+  induction k as [|k IH]; intros g rd i acc q used0 Hwf; cbn [decode_chained chained_a]; [exact I|].
+  pose proof (decode_abs o MFull g rd fuel Hwf) as HA.
+  destruct (decode o MFull g rd fuel) as [r|w|]; destruct (decode_a o MFull g (rd_data rd) (rd_term rd)) as [a|w'|] eqn:Ea;
+    try contradiction; [|exact HA].
+  destruct HA as (M1 & M2 & M3 & M4 & M5 & M6 & M7 & M8 & M9).
+  destruct (decode_a_used _ _ _ _ _ _ Ea) as (_ & _ & D3 & _).
+  rewrite M1, M3, M4, M5.
+  assert (Hpos : rd_pos rd <= rd_pos (dr_rd r)) by (destruct M6 as [n M6]; destruct (adv_pos_le _ _ _ M6); lia).
+  destruct (ar_err a) as [e|] eqn:Ee.
+  - assert (FIN : forall (ce : option err) (fs : list file),
+              cmatch rd used0 (TDone (mk_cres ce fs (dr_rd r) (ar_g a) (q ++ ar_quirks a)))
+                              (TDone (mk_cares ce fs (used0 + ar_used a) (ar_g a) (q ++ ar_quirks a) (ar_exact a)))).
+    { intros ce fs. cbn. repeat split; try lia. intros Hx. rewrite (adv_full _ _ _ (M8 Hx) M9). lia. }
+    destruct e; destruct i; apply FIN.
+  - specialize (D3 eq_refl ltac:(discriminate)). pose proof (M8 D3) as A.
+    assert (Hwf' : wf (dr_rd r) fuel) by (eapply adv_wf; eassumption).
+    specialize (IH (ar_g a) (dr_rd r) (S i) (match ar_file a with Some f => acc ++ [f] | None => acc end) (q ++ ar_quirks a) (used0 + ar_used a) Hwf').
+    rewrite (adv_data _ _ _ A), (adv_term _ _ _ A) in IH.
+    pose proof (adv_full _ _ _ A M9) as P.
+    unfold cmatch in *.
+    destruct (decode_chained o (ar_g a) (dr_rd r) fuel (S i) k _ _) as [cr|w|];
+      destruct (chained_a o (ar_g a) (skipn (ar_used a) (rd_data rd)) (rd_term rd) (S i) k _ _ _) as [ca|w'|]; try contradiction; try exact IH.
+    destruct IH as (I1 & I2 & I3 & I4 & I5 & I6 & I7). repeat split; try assumption; try lia.
+    intros Hx. specialize (I7 Hx). lia.
+Qed.
+
+(* ------------------------------------------------------------ independence of chained files *)
+(* a file decoded alone: one read returning everything, clean EOF after it *)
+Definition solo (bs : list N) : reader := mk_reader bs [] TEOF false 0.
+Definition solo_fuel (bs : list N) : nat := S (length bs).
+
+Lemma solo_wf bs : wf (solo bs) (solo_fuel bs).
+Proof. unfold wf, solo, solo_fuel. cbn. lia. Qed.
+
+(* [chain_ok o g bss fs g' q]: decoding the files bss one after the other, each alone, starting with the
+   package-level accumulator state g and handing the state left by one decode to the next, succeeds on each,
+   consumes each completely, returns the Files fs, ends in state g' and raises the quirk tags q *)
+Inductive chain_ok (o : dopts) : gstate -> list (list N) -> list file -> gstate -> list N -> Prop :=
+| chain_nil g : chain_ok o g [] [] g []
+| chain_cons g bs r f rest fs g' q :
+    decode o MFull g (solo bs) (solo_fuel bs) = TDone r -> dr_err r = None -> dr_file r = Some f ->
+    rd_data (dr_rd r) = [] ->
+    chain_ok o (dr_g r) rest fs g' q ->
+    chain_ok o g (bs :: rest) (f :: fs) g' (dr_quirks r ++ q).
+
+(* what one link of the chain says about decode_a *)
+Lemma solo_step o md g bs r : decode o md g (solo bs) (solo_fuel bs) = TDone r -> dr_err r = None -> md <> MFileIdOnly ->
+  rd_data (dr_rd r) = [] ->
+  exists a, decode_a o md g bs TEOF = TDone a /\ ar_err a = None /\ ar_used a = length bs /\
+            ar_file a = dr_file r /\ ar_g a = dr_g r /\ ar_quirks a = dr_quirks r /\ ar_hdr a = dr_hdr r.
+Proof.
+  intros Hd He Hm Hnil. pose proof (decode_abs o md g (solo bs) (solo_fuel bs) (solo_wf bs)) as HA.
+  rewrite Hd in HA. cbn [solo rd_data rd_term] in HA.
+  destruct (decode_a o md g bs TEOF) as [a|w|] eqn:Ea; try contradiction.
+  destruct HA as (M1 & M2 & M3 & M4 & M5 & M6 & M7 & M8 & M9).
+  destruct (decode_a_used _ _ _ _ _ _ Ea) as (_ & _ & D3 & _).
+  rewrite M1 in He. specialize (M8 (D3 He Hm)). unfold solo in M9. cbn [rd_data] in M9.
+  exists a. repeat split; try congruence.
+  pose proof (adv_data _ _ _ M8) as Hdata. unfold solo in Hdata. cbn [rd_data] in Hdata. rewrite Hnil in Hdata.
+  assert (length (skipn (ar_used a) bs) = 0) by (rewrite <- Hdata; reflexivity). rewrite skipn_length in H. lia.
+Qed.
+
+Lemma chain_a o g bss fs g' q : chain_ok o g bss fs g' q ->
+  forall i k acc q0 u0, (bss = [] -> i <> 0) -> length bss < k ->
+  chained_a o g (concat bss) TEOF i k acc q0 u0 =
+  TDone (mk_cares None (acc ++ fs) (u0 + length (concat bss)) g' (q0 ++ q) true).
+Proof.
+  induction 1 as [g|g bs r f rest fs g' q Hd He Hf Hnil Hc IH]; intros i k acc q0 u0 Hi Hk.
+  - destruct k as [|k]; [cbn in Hk; lia|]. destruct i as [|i]; [exfalso; apply Hi; reflexivity|].
+    cbn. rewrite !app_nil_r, Nat.add_0_r. reflexivity.
+  - destruct k as [|k]; [cbn in Hk; lia|]. cbn [length] in Hk.
+    destruct (solo_step o MFull g bs r Hd He ltac:(discriminate) Hnil) as (a & Ea & A1 & A2 & A3 & A4 & A5 & A6).
+    cbn [concat chained_a].
+    rewrite (decode_a_ext o MFull g bs TEOF a Ea A1 ltac:(discriminate) (bs ++ concat rest) TEOF);
+      [|rewrite A2, firstn_app, Nat.sub_diag; cbn [firstn]; rewrite app_nil_r; reflexivity
+       |rewrite A2, app_length; lia].
+    rewrite A1, A3, Hf, A4, A5, A2.
+    rewrite skipn_app, Nat.sub_diag, skipn_all. cbn [skipn app].
+    rewrite (IH (S i) k (acc ++ [f]) (q0 ++ dr_quirks r) (u0 + length bs)); [|discriminate|lia].
+    rewrite <- !app_assoc, app_length. cbn [app]. f_equal. f_equal. lia.
+Qed.
+
+Lemma chain_ok_lengths o g bss fs g' q : chain_ok o g bss fs g' q -> length bss <= length (concat bss) /\ length fs = length bss.
+Proof.
+  induction 1 as [g|g bs r f rest fs g' q Hd He Hf Hnil Hc IH]; [cbn; lia|].
+  destruct (solo_step o MFull g bs r Hd He ltac:(discriminate) Hnil) as (a & Ea & A1 & A2 & _).
+  destruct (decode_a_used _ _ _ _ _ _ Ea) as (_ & _ & _ & _ & D5).
+  specialize (D5 A1 (or_introl eq_refl)). cbn [concat length]. rewrite app_length. lia.
+Qed.
+
+(* (e) DecodeChained over a concatenation of files that decode alone returns one File per input, each the File of
+   the solo decode (in the accumulator state left by the files before it), whatever the chunking *)
+Theorem chained_concat o g bss fs g' q : chain_ok o g bss fs g' q -> bss <> [] ->
+  forall rd fuel, rd_data rd = concat bss -> rd_term rd = TEOF -> wf rd fuel ->
+  exists cr, entry_DecodeChained o g rd fuel = TDone cr /\ cr_err cr = None /\ cr_files cr = fs /\ cr_g cr = g' /\
+             cr_quirks cr = q /\ rd_pos (cr_rd cr) = rd_pos rd + length (concat bss).
+Proof.
+  intros Hc Hne rd fuel Hd Ht Hwf. unfold entry_DecodeChained.
+  pose proof (decode_chained_abs o fuel (S (length (rd_data rd))) g rd 0 [] [] 0 Hwf) as HA.
+  rewrite Hd, Ht in HA. destruct (chain_ok_lengths _ _ _ _ _ _ Hc) as [HL _].
+  rewrite (chain_a o g bss fs g' q Hc 0 (S (length (concat bss))) [] [] 0) in HA; [|intros; contradiction|lia].
+  rewrite Hd. destruct (decode_chained o g rd fuel 0 (S (length (concat bss))) [] []) as [cr|w|]; try contradiction.
+  destruct HA as (C1 & C2 & C3 & C4 & C5 & C6 & C7). cbn in *. exists cr. repeat split; try assumption.
+  specialize (C7 eq_refl). lia.
+Qed.
